@@ -3256,18 +3256,6 @@ where
                         "post-construction: D≥4 finalize repair completed (soft-fail)"
                     );
                     // Always soft-fail: is_delaunay_property_only() validates correctness.
-
-                    // The repair flips do not maintain the positive-orientation convention, and
-                    // only the PL-manifold guarantees re-validate it below.  Re-establish it for
-                    // every guarantee; a complex in which that is impossible is not a
-                    // triangulation and must not be returned.
-                    self.tri
-                        .normalize_and_promote_positive_orientation()
-                        .map_err(|e| TriangulationConstructionError::GeometricDegeneracy {
-                            message: format!(
-                                "Geometric orientation could not be canonicalized after construction: {e}"
-                            ),
-                        })?;
                 }
             } else if !soft_fail_seeds.is_empty() {
                 // D<4 seeded repair (unused in practice; kept for completeness).
@@ -3297,6 +3285,20 @@ where
                 );
                 repair_outcome?;
             }
+        }
+
+        // Repair flips (the D≥4 pass above and the per-insertion repairs in every dimension) do
+        // not maintain the positive-orientation convention, and only the PL-manifold guarantees
+        // re-validate it below.  Re-establish it for every guarantee; a complex in which that is
+        // impossible is not a triangulation and must not be returned.
+        if self.tri.tds.number_of_cells() > 0 {
+            self.tri
+                .normalize_and_promote_positive_orientation()
+                .map_err(|e| TriangulationConstructionError::GeometricDegeneracy {
+                    message: format!(
+                        "Geometric orientation could not be canonicalized after construction: {e}"
+                    ),
+                })?;
         }
 
         if topology.requires_vertex_links_at_completion() {
